@@ -12,7 +12,10 @@ META = dict(
          "thorough); (4) every in/under link assignment over 3 frames (4 in thorough) including self, cyclic and dangling "
          "links, and every first/next assignment; (5) every directed graph of clone edges (`aux X as mine`, `aux X as tag`, "
          "`rear X as mine be aux in frame b`) over <= 3 moot framers (4 in thorough) incl. self-loops and cycles, reached "
-         "from one active framer. Every build runs under a wall-clock watchdog (a time-out is re-run with a long "
+         "from one active framer; (6) every spelling of a need the makeDoneNeed / makeStatusNeed / makeMarkerNeed / "
+         "makeFramerNeed / makeNeed docstrings allow (aux keyword, any/all, in frame [me|name], in framer [me|name], by marker, "
+         "re [me|name], direct / indirect / `goal` goals, tolerance; valid and dangling names) under go / let / aux-if, alone, "
+         "negated and on either side of a 2-clause conjunction, built and resolved in a scaffold defining the names. Every build runs under a wall-clock watchdog (a time-out is re-run with a long "
          "limit before it counts). Accepted outcomes: success, Builder.build returning False, ParseError, ResolveError, other "
          "ioflo.base.excepting classes, ValueError from a Convert2* converter or from an explicit `raise ValueError` in ioflo. "
          "Anything else (TypeError, NameError, AttributeError, KeyError, IndexError, other ValueError, non-termination) is a violation.",
@@ -92,6 +95,8 @@ def items():
             out.append(("links", mu, nn, False, qf, s, nshard))
     out.append(("firstnext", "", 2, False, 0, 0, 1))
     out.append(("firstnext", "", 3, False, 0, 0, 1))
+    for sh in range(12):
+        out.append(("needs", "", 0, False, 0, sh, 12))
     # clone graphs: (moot framers, edge kinds, root variants, flag, shards)
     clones = [(1, ("mine", "tag", "rear"), ("first",), 0, 1), (2, ("mine", "tag", "rear"), ("first", "all"), 0, 2),
               (3, ("mine",), ("first", "all"), 0, 2), (3, ("mine", "tag"), ("all",), 0, 32)]
@@ -219,6 +224,13 @@ def work(item):
         n = item[2]
         for label, text in scripts.gen_first_next_graphs(n):
             J.judge((0, 6, n, len(label), label), label, text)
+    elif kind == "needs":
+        shard, nshards = item[5], item[6]
+        for i, (nk, line) in enumerate(scripts.gen_need_lines()):
+            if i % nshards != shard:
+                continue
+            ntok = len(scripts.tokenize_line(line)[1])
+            J.judge((0, 8, ntok, line), "FRAME: " + line, scripts.scaffold(line), extra_files=scripts.LOADED)
     elif kind == "clones":
         _, (kinds, roots), n, _, qflag, shard, nshards = item
         for i, (label, text) in enumerate(scripts.gen_clone_graphs(n, kinds, roots)):
